@@ -87,7 +87,12 @@ func runConc(args []string) int {
 		fmt.Println(`{"error":"unusable seed"}`)
 		return 2
 	}
-	pubX, _ := bip32.NewKeyFromString(func() string { m2, _ := bip32.NewMaster(seedBytes, &chaincfg.MainNet); n, _ := m2.Neuter(); return n.String() }())
+	masterT, _ := bip32.NewMaster(seedBytes, &chaincfg.TestNet) // the same key material on another network
+	pubX, _ := bip32.NewKeyFromString(func() string {
+		m2, _ := bip32.NewMaster(seedBytes, &chaincfg.MainNet)
+		n, _ := m2.Neuter()
+		return n.String()
+	}())
 	ct, _ := bec.Encrypt(pub, msg)
 	w1, _ := wif.NewWIF(priv, &chaincfg.MainNet, true)
 
@@ -151,6 +156,21 @@ func runConc(args []string) int {
 				put("bip39.mn"+fmt.Sprint(it), mn)
 				id, _ := chaincfg.HDPrivateKeyToPublicKeyID(chaincfg.MainNet.HDPrivateKeyID[:])
 				put("chaincfg", hx(id))
+				// two networks looked up / neutered at the same time by different goroutines (a shared
+				// "last lookup" in front of the registry would pair one network's id with the other's)
+				for j := 0; j < 8; j++ {
+					if (w+it+j)%2 == 0 {
+						nm, _ := master.Neuter()
+						put("xkey.neuter", nm.String())
+						idT, _ := chaincfg.HDPrivateKeyToPublicKeyID(chaincfg.TestNet.HDPrivateKeyID[:])
+						put("chaincfgT", hx(idT))
+					} else {
+						nt, _ := masterT.Neuter()
+						put("xkeyT.neuter", nt.String())
+						idM, _ := chaincfg.HDPrivateKeyToPublicKeyID(chaincfg.MainNet.HDPrivateKeyID[:])
+						put("chaincfg", hx(idM))
+					}
+				}
 				put("dpath"+fmt.Sprint(it), bip32.DerivePath(uint64(it)*977))
 			}
 		}(w)
@@ -177,7 +197,14 @@ func runConc(args []string) int {
 			return m2.Address(&chaincfg.MainNet)
 		}(),
 		"decrypt": hx(msg),
-		"verify":  "1",
+		"xkeyT.neuter": func() string {
+			m2, _ := bip32.NewMaster(seedBytes, &chaincfg.TestNet)
+			n, _ := m2.Neuter()
+			return n.String()
+		}(),
+		"chaincfgT": hx(chaincfg.TestNet.HDPublicKeyID[:]),
+		"chaincfg":  hx(chaincfg.MainNet.HDPublicKeyID[:]),
+		"verify":    "1",
 	}
 	for name, want := range seqChecks {
 		if vals, ok := record[name]; ok && vals[0] != want {
